@@ -7,7 +7,7 @@ import traceback
 
 from . import smt
 from .smt import T, is_t, I, R, B, S, And, Or, Not, Implies, Ite, Eq, lift
-from .interp import (Interp, Ctx, Frame, Unsupported, NoContract, PathEnd, PyRaise, _Return, ExcVal, Obj, Opaque,
+from .interp import (Interp, Ctx, Frame, Unsupported, NoContract, PathEnd, Infeasible, PyRaise, _Return, ExcVal, Obj, Opaque,
                      SymList, SymMap, SymSet, SymFile, RepoFunc, ModuleSrc, next_prefix, func_source_info,
                      PS_EXC, PS_EXC_BY_CLS, BoundMethod, EnvFunc, Builtin, FStr)
 
@@ -38,7 +38,7 @@ class Contract:
                  raises=None, modifies=(), returns=None, loops=None, env=None, inline=(), configs=None,
                  helpers=None, canaries=(), replay=None, known=(), note="", callee_only=False,
                  verify_only=False, exc_fields=None, effect=None, max_paths=20000, assumes=(), role="top",
-                 ghost_init=None):
+                 ghost_init=None, callee_ensures=None, allow_no_exit=False, parallel=False):
         self.prop = prop
         self.file = file
         self.qualname = qualname
@@ -67,6 +67,9 @@ class Contract:
         self.assumes = list(assumes)
         self.role = role                    # 'top' (states the property) | 'helper'
         self.ghost_init = ghost_init
+        self.callee_ensures = callee_ensures
+        self.allow_no_exit = allow_no_exit
+        self.parallel = parallel
 
     @property
     def modname(self):
@@ -288,7 +291,7 @@ def apply_contract(it, c, f, args, kwargs, node):
         if k == 0:
             result = c.returns(it, env) if c.returns is not None else None
             env2 = dict(env, result=result)
-            for cl in c.ensures:
+            for cl in (c.ensures if c.callee_ensures is None else c.callee_ensures):
                 it.ctx.assume(eval_clause(it, cl, env2, f))
             return result
         clsname, cond = outcomes[k]
@@ -344,13 +347,14 @@ class PathResult:
         self.truncated = False
 
 
-def verify_contract(c, cfg, registry, max_paths=None):
+def verify_contract(c, cfg, registry, max_paths=None, root=()):
     mod = ModuleSrc.get(c.file)
     node = mod.find(c.qualname, c.which)
     res = PathResult()
     res.source = func_source_info(mod, node)
-    prefix = []
-    limit = max_paths or c.max_paths
+    prefix = list(root)
+    import os as _os
+    limit = int(_os.environ.get('VERIF_MAX_PATHS', 0)) or max_paths or c.max_paths
     while prefix is not None:
         ctx = Ctx(prefix)
         it = Interp(ctx, registry, c)
@@ -360,6 +364,8 @@ def verify_contract(c, cfg, registry, max_paths=None):
         res.npaths += 1
         try:
             run_path(it, c, cfg, mod, node, res)
+        except Infeasible:
+            res.pruned = getattr(res, "pruned", 0) + 1
         except PathEnd:
             res.exits.append(("cut", list(ctx.pc), list(ctx.decls), list(ctx.usorts)))
         except Unsupported as e:
@@ -368,7 +374,7 @@ def verify_contract(c, cfg, registry, max_paths=None):
             res.undecided.append(("RecursionError in engine", list(ctx.pc), list(ctx.decls), list(ctx.usorts)))
         for ob in ctx.obligs:
             res.obligs.append((ob, ctx.pc[:ob.npc], ctx.decls[:], list(ctx.usorts), list(ctx.values)))
-        prefix = next_prefix(ctx.trace)
+        prefix = next_prefix(ctx.trace, len(root))
         if res.npaths >= limit and prefix is not None:
             res.truncated = True
             res.undecided.append((f"path limit {limit} reached", [], [], []))
@@ -392,6 +398,7 @@ def run_path(it, c, cfg, mod, node, res):
     env = it.bind_args(func, [], dict(args))
     base = spec_env(it, c, dict(env, **spec))
     base["cfg"] = cfg
+    it.spec_names = {k: v for k, v in base.items() if k not in env}
     for cl in c.requires:
         ctx.assume(eval_clause(it, cl, base, func))
     it.old_env = {k: snapshot(v) for k, v in base.items()}
@@ -452,3 +459,33 @@ def run_path(it, c, cfg, mod, node, res):
                     continue
                 t = eval_clause(it, cond, post_env, func)
                 ctx.oblige(f"xpost:{allowed[0]}:{clause_text(cond)}", "xpost", t, where="exceptional exit")
+
+
+def split_roots(c, cfg, registry, want=48, max_probe=400):
+    """decision prefixes whose subtrees partition the path space (for parallel exploration)"""
+    mod = ModuleSrc.get(c.file)
+    node = mod.find(c.qualname, c.which)
+    roots = [[]]
+    done = []
+    probes = 0
+    while roots and len(roots) + len(done) < want and probes < max_probe:
+        r = roots.pop(0)
+        ctx = Ctx(r)
+        it = Interp(ctx, registry, c)
+        it.cfg = cfg
+        it.env_over.update(c.env)
+        it.inline = set(c.inline)
+        probes += 1
+        res = PathResult()
+        try:
+            run_path(it, c, cfg, mod, node, res)
+        except (PathEnd, Unsupported, RecursionError):
+            pass
+        except Exception:
+            pass
+        if len(ctx.trace) > len(r):
+            n = ctx.trace[len(r)][0]
+            roots.extend(r + [k] for k in range(n))
+        else:
+            done.append(r)
+    return done + roots
